@@ -149,3 +149,52 @@ def report(ctx, rule):
     else:
         ctx.fail(rule, f, f.node, "instance-copy model: %s (%d disagreeing observation(s))" % (problems[0], len(problems)), key=f.qualname + "::instance-copy-model",
                  input="a.param.x.objects.append(3) -> visible on the class / on another instance")
+
+
+def pf_instance_model(ctx, rule):
+    """ParameterizedFunction.instance called on an existing instance, interpreted abstractly: the source holds `a` (set
+    explicitly to a value EQUAL to the class default), `b` (changed) and its name; the caller overrides `c`.
+
+    Specification: the new object is constructed with the source's value of EVERY parameter other than `name` (a value
+    equal to the default included: the copy then owns it, and a later class-level change does not show through in the
+    copy while the source keeps its value) plus the overrides."""
+    PF = P + "ParameterizedFunction"
+    f = ctx.repo.method(PF, "instance")
+    va, vb, vc = Obj("value_a_equal_to_the_default"), Obj("value_b"), Obj("override_c")
+    src_cls = Obj("Cls", __name__="Cls")
+    src = Obj("existing_instance", name="src_name")
+    src.attrs["__class__"] = src_cls
+    got = {}
+
+    def hook(fn, args, kwargs):
+        if fn == "isinstance" and len(args) == 2 and args[0] is src:
+            return False            # not the class route
+        if fn.endswith(".param.values"):
+            oc = kwargs.get("onlychanged", args[0] if args else False)
+            if oc is True:
+                return {"b": vb}                 # values(onlychanged=True): what differs from the defaults
+            if oc is False:
+                return {"name": "src_name", "a": va, "b": vb}
+            raise Unsupported("values(onlychanged=%r)" % (oc,))
+        if fn == "Parameterized.__new__":
+            return Obj("new_instance")
+        if fn == "Parameterized.__init__":
+            got["kwargs"] = dict(kwargs)
+            return None
+        return NotImplemented
+    it = Interp(ctx.hier, call_hook=hook)
+    try:
+        outs = it.run_all(f, {f.params[0]: src, "params": {"c": vc}})
+    except Unsupported as e:
+        raise AnalysisError("instance-copy model: absint cannot interpret ParameterizedFunction.instance: %s" % e)
+    if len(outs) != 1 or outs[0].imprecise or outs[0].kind != "return":
+        raise AnalysisError("instance-copy model: ParameterizedFunction.instance is not interpretable precisely (%s)" % (outs[0].notes[:2] if outs else "no outcome"))
+    ctx.abstract_cases += 1
+    kw = got.get("kwargs")
+    want = {"a": va, "b": vb, "c": vc}
+    if not isinstance(kw, dict) or set(kw) != set(want) or any(kw[k] is not want[k] for k in want):
+        ctx.fail(rule, f, f.node, "instance-copy model: obj.instance(c=...) constructs the copy with %s, specification %s: a value the source set explicitly that equals the class default is not "
+                                  "carried over -- the copy follows later class-level changes of that parameter while the source keeps its value" % (sorted(kw) if isinstance(kw, dict) else kw, sorted(want)),
+                 key=f.qualname + "::instance-copy-values", input="f = F.instance(); f.x = F.x; g = f.instance(); F.x = 9 -> g.x == 9 while f.x keeps its value")
+    else:
+        ctx.ok(rule, f, f.node, "instance-copy model: obj.instance(**overrides) hands the constructor every value of the source except its name, plus the overrides")
